@@ -258,6 +258,14 @@ impl Drv {
 
     fn tx_case(&mut self, kind: &str, op: String, hash: &Hx, ts: u64, acct_nonce: u64, s: &Sample, desc: Value) {
         if !self.record_cases { return; }
+        // independent reference (no model): an inscribed transaction runs with the Bitcoin txid of
+        // the inscription that carried it (for a parked transaction: of its latest parking)
+        if let (Some(want), Some(got)) = (desc["txid"].as_str(), s.env["op_return_tx_id"].as_str()) {
+            if want.trim_start_matches("0x").to_lowercase() != got.trim_start_matches("0x").to_lowercase() {
+                self.cases.problems.push(json!({"what": format!("C19: a {} transaction ran with current txid 0x{} but the inscription that carried it has txid {}", kind, got, want),
+                    "case": {"network": self.cfg.network, "inputs": desc, "env": s.env, "history": self.log.clone()}}));
+            }
+        }
         let cf = self.cfg.coq();
         let number = self.next;
         let h = n_bytes(&hash.0);
